@@ -246,9 +246,7 @@ Section MODEL.
 
   (* j = project.open_job(old); j.statepoint = new   (fresh handle: the _StatePointDict is created
      empty, reset(new) fills it and calls _StatePointDict._save, then the setter registers) *)
-  Definition op_rekey (f : fs) (s : sess) (old new : json) : fs * sess * result unit :=
-    let s0 := ensure_read f s in
-    let oi := cid old in
+  Definition rekey_core (f : fs) (s0 : sess) (oi : str) (new : json) : fs * sess * result unit :=
     let ni := cid new in
     if negb (is_objb new) then (f, s0, Err EValueError)
     else if str_eqb oi ni then (f, reg s0 ni new, Ok tt)
@@ -280,6 +278,34 @@ Section MODEL.
               end
           end
       end.
+
+  Definition op_rekey (f : fs) (s : sess) (old new : json) : fs * sess * result unit :=
+    rekey_core f (ensure_read f s) (cid old) new.
+
+  (* j = project.open_job(id=i); j.statepoint = new   (a handle reached BY ID; its _cached_statepoint is the
+     very dict held in _sp_cache — _save rebinds it, it never mutates it) *)
+  Definition op_rekey_id (f : fs) (s : sess) (i : str) (new : json) : fs * sess * result unit :=
+    match open_id f s i with
+    | (s1, Err e) => (f, s1, Err e)
+    | (s1, Ok h) => rekey_core f s1 (fst h) new
+    end.
+
+  (* j = project.open_job(id=i); j.cached_statepoint   (also what iteration handles show) *)
+  Definition cached_by_id (f : fs) (s : sess) (i : str) : sess * result json :=
+    match open_id f s i with
+    | (s1, Err e) => (s1, Err e)
+    | (s1, Ok (m, Some sp)) => (s1, Ok sp)
+    | (s1, Ok (m, None)) => get_statepoint f s1 true m
+    end.
+
+  Fixpoint cached_all (f : fs) (s : sess) (ids : list str) : sess * list (str * result json) :=
+    match ids with
+    | [] => (s, [])
+    | i :: r =>
+        let '(s1, x) := cached_by_id f s i in
+        let '(s2, l) := cached_all f s1 r in
+        (s2, (i, x) :: l)
+    end.
 
   (* ---------------------------------------------------------------- update_cache *)
   (* Project._update_in_memory_cache; the ThreadPool only permutes the insertion order of the
